@@ -1,6 +1,7 @@
 import MJ.Model.Slice
 import MJ.Model.PySlice
 import MJ.Model.Subscript
+import MJ.Model.SubKinds
 /-! Line driver for C09: `slice kind len a b c form` / `index kind len i form` → model and spec. -/
 open MJ MJ.Slice
 
@@ -116,7 +117,7 @@ def enumFrom {β : Type} (i : Nat) : List β → List (β × Nat)
   | [] => []
   | x :: xs => (x, i) :: enumFrom (i + 1) xs
 
-def parseVal (spec : String) : Option (Val Nat) :=
+def parseBase (spec : String) : Option (Val Nat) :=
   let (tag, arg) := splitTag spec
   match tag with
   | "U" => some .undef
@@ -150,7 +151,57 @@ def parseVal (spec : String) : Option (Val Nat) :=
     let ks := (arg.splitOn ",").filter (· ≠ "")
     (ks.mapM unhex).map fun mks => .map (enumFrom 0 (mks.map MKey.str))
   | "Q" => some .plain
+  -- std sets / linked lists: sized iterables
+  | "BS" => arg.toNat?.map fun n => .iter true (List.range n)
+  | "LL" => arg.toNat?.map fun n => .iter true (List.range n)
+  | "HS" => arg.toNat?.map fun n => .iter true (List.range n)
+  -- repetitions, built by the model of `repeat_iterable`
+  | "RP" =>
+    match (arg.splitOn "x").map String.toNat? with
+    | [some n, some k] =>
+      match repeatIterable (.plain (List.range n)) k with
+      | .ok r => some r.val
+      | .error _ => none
+    | _ => none
+  | "RR" =>
+    match (arg.splitOn "x").map String.toNat? with
+    | [some n, some a, some b] =>
+      match repeatIterable (.plain (List.range n)) a with
+      | .ok r =>
+        match repeatIterable (.rep r) b with
+        | .ok r2 => some r2.val
+        | .error _ => none
+      | .error _ => none
+    | _ => none
+  -- custom objects: one per `Enumerator` variant and sequence-like representation
+  | "CE" =>
+    match arg.splitOn ":" with
+    | [rp, variant, n] =>
+      n.toNat?.map fun n =>
+        if rp = "S" then .seq (List.range n)
+        else .iter (variant != "iterlo" && variant != "iterlow" && variant != "iternone") (List.range n)
+    | _ => none
   | _ => none
+
+/-- does the value of this spec enumerate through `Enumerator::RevIter`? -/
+def enumeratesRevIter (spec : String) : Bool :=
+  spec.startsWith "BS:" || spec.startsWith "LL:" || (spec.startsWith "CE:" && (spec.splitOn ":").getD 2 "" == "rev")
+
+def parseVal (spec : String) : Option (Val Nat) :=
+  let (tag, arg) := splitTag spec
+  if tag = "RV" then
+    let inner := arg.replace "=" ":"
+    match parseBase inner with
+    | some v =>
+      -- `Value::reverse` by the regenerated arm table: an arm marked `forward` does not reverse
+      if enumeratesRevIter inner && MJ.Gen.c09ReverseArms.lookup "RevIter" == some "forward" then
+        match v with
+        | .iter _ xs => some (.iter true xs)
+        | .seq xs => some (.iter true xs)
+        | v => some v
+      else reverseView v
+    | none => none
+  else parseBase spec
 
 def parseMode : String → Option Mode
   | "L" => some .lenient
@@ -191,7 +242,7 @@ def longChr (i : Nat) : Char :=
   let q := i / 4
   match i % 4 with
   | 0 => Char.ofNat (0x61 + q % 26)
-  | 1 => Char.ofNat (0xe0 + q % 32)
+  | 1 => Char.ofNat (0x300 + q % 32)
   | 2 => Char.ofNat (0x4e00 + q % 1000)
   | _ => Char.ofNat (0x1f600 + q % 64)
 
@@ -258,6 +309,48 @@ def handleLong (kind len a b c : String) : String :=
         | some a, some b, some c => showLong (vmSlice .lenient v a b c)
         | _, _, _ => "bad-case"
 
+def showList (xs : List Nat) : String := "[" ++ joinNats xs ++ "]"
+
+def parseB (s : String) : Option (Option Int) := if s = "_" then some none else s.toInt?.map some
+
+/-- the ops of an `os` case on the state of ONE one-shot iterator -/
+def runOnce (rem : List Nat) (ops : List String) (acc : String) : String :=
+  match ops with
+  | [] => acc
+  | op :: rest =>
+    let h := (op.take 1).toString
+    let arg := (op.drop 1).toString
+    if h = "i" then
+      match arg.toInt? with
+      | some k =>
+        let (x, rem') := onceGetItem rem (Val.num (.i64 k) : Val Nat)
+        runOnce rem' rest (acc ++ (match x with | some n => toString n | none => "") ++ "|")
+      | none => "bad-case"
+    else if h = "s" || h = "t" then
+      match arg.splitOn "," with
+      | [a, b, c] =>
+        match parseB a, parseB b, parseB c with
+        | some a, some b, some c =>
+          let st := c.getD 1
+          if st = 0 then "err:InvalidOperation|cannot slice by step size of 0" else
+          match onceSliceEnum rem a b st with
+          | .panic => "panic"
+          | .ok (ys, rem') =>
+            if h = "s" then runOnce rem' rest (acc ++ showList ys ++ "|")
+            else
+              match onceSliceEnum rem' a b st with
+              | .panic => "panic"
+              | .ok (zs, rem'') => runOnce rem'' rest (acc ++ showList ys ++ "~" ++ showList zs ++ "|")
+        | _, _, _ => "bad-case"
+      | _ => "bad-case"
+    else if h = "l" then
+      let (ys, rem') := onceList rem
+      runOnce rem' rest (acc ++ showList ys ++ "|")
+    else if h = "f" then
+      let (x, rem') := onceFirst rem
+      runOnce rem' rest (acc ++ (match x with | some n => toString n | none => "") ++ "|")
+    else "bad-case"
+
 def handle (f : List String) : String :=
   match f with
   | ["gs", mode, _entry, vs, a, b, c] =>
@@ -291,6 +384,21 @@ def handle (f : List String) : String :=
       | some n => s!"elem:{n}"
       | none => "undef"
     | none => "bad-case"
+  | ["mr", rel, vs] =>
+    match parseVal vs with
+    | some v =>
+      let rv := parseVal ("RV:" ++ vs.replace ":" "=")
+      if rel = "rev" then
+        let lhs := match rv with | some r => showVal r | none => "-"
+        s!"{lhs}~~{showSlice (vmSlice .lenient v .none .none (.num (.i64 (-1))))}"
+      else if rel = "first" then s!"-~~{showGet (vmGetItem .lenient v (.num (.i64 0)))}"
+      else if rel = "last" then s!"-~~{showGet (vmGetItem .lenient v (.num (.i64 (-1))))}"
+      else "-~~-"
+    | none => "bad-case"
+  | ["os", len, ops] =>
+    match len.toNat? with
+    | some len => runOnce (List.range len) (ops.splitOn ";") ""
+    | none => "bad-case"
   | _ => "bad-case"
 
 end Glue
@@ -317,10 +425,10 @@ def handle (line : String) : String :=
     match len.toNat?, parseChain suffix with
     | some len, some ops => s!"{case}\t{runChain true kind len ops}\t{runChain false kind len ops}"
     | _, _ => s!"{case}\tbad-case\tbad-case"
-  | "gs" :: _ | "gi" :: _ | "ga" :: _ | "long" :: _ | "mg" :: _ =>
+  | "gs" :: _ | "gi" :: _ | "ga" :: _ | "long" :: _ | "mg" :: _ | "mr" :: _ | "os" :: _ =>
     let r := Glue.handle (case.trimAscii.toString.splitOn " ")
     s!"{case}\t{r}\t-"
-  | "meta" :: _ | "dv" :: _ | "ds" :: _ => s!"{case}\t-\t-"
+  | "meta" :: _ | "dv" :: _ | "ds" :: _ | "dr" :: _ | "pb" :: _ | "huge" :: _ | "cv" :: _ => s!"{case}\t-\t-"
   | _ => s!"{case}\tbad-case\tbad-case"
 
 partial def loop (h : IO.FS.Stream) (out : IO.FS.Stream) : IO Unit := do
